@@ -21,8 +21,8 @@ pub fn world() -> World {
         ],
         rule: "one run = one interleaving of producer ops (write n, flush, clear_but_last) and consumer ops (read n, fill_buf+consume k, consume_with ok/err) on one IOQueue, then a full drain; non-trivial = at least two chunks coexisted or a partial consume happened; distinct = distinct (op kind, size class, result class) sequence",
         runs: |_, tier| match tier {
-            Tier::Quick => 200_000,
-            Tier::Thorough => 8_000_000,
+            Tier::Quick => 400_000,
+            Tier::Thorough => 20_000_000,
         },
         features: &[],
     }
